@@ -306,6 +306,13 @@ def check_c18(ck, tier, replay=None):
         meta = {'kind': 'range', 'text': text, 'model': mdl, 'clause': cls}
         rep = common.write_replay('C18', text + cls, {}, meta); ok, why = replay_range(meta)
         ck.violation('C18 RangeParser ' + cls.split(' (')[0][:60], 'RangeParser %s: %s; %s' % (text, cls, why), rep, reproduced=ok)
+    # bead selection by type / "name:" pattern (BeadList::Generate), glob matcher by contract
+    import C03p
+    sfound = []
+    C03p.check_selection(ck, tier, sfound)
+    for tag, name, meta in sfound:
+        rep = common.write_replay('C18', 'select' + name, {}, meta); ok, why = C03p.replay_selection(meta)
+        ck.violation('C18 bead selection', name + ' ; ' + why, rep, reproduced=ok)
 
 def replay_wild(meta):
     p = bytes.fromhex(meta['pattern']); s = bytes.fromhex(meta['string'])
